@@ -330,7 +330,34 @@ func runC11(c *core.Ctx) {
 	// 1b. wide-character documents for the non-CJK extensions on top of a CJK base: East Asian line-break handling looks at the
 	// characters around a soft break, so anything another extension does to the text nodes there (flushing at spaces,
 	// at trigger characters) must not show
-	cjkTok := []string{"日本", "語", "あ", "漢字", "、", "。", "「", "」", "ア", "한", "a", "b", " ", " ", "  ", "\n", "\n", " \n", "  \n", "\\\n", "*", "**", "`", "(", ")", "!", "#", "1", "x y"}
+	cjkTok := []string{"日本", "語", "あ", "漢字", "、", "。", "「", "」", "ア", "한", "a", "b", " ", " ", "  ", "\n", "\n", " \n", "  \n", "\\\n", "*", "**", "`", "(", ")", "!", "#", "1", "x y",
+		"\r\n", " \r\n", "\t \r\n", "  \r\n", "\t", "\r"}
+	// 1a. line endings and the white space before them, exhaustively: every string up to a length bound over letters, a wide
+	// character, space, TAB, LF, CR LF and a lone CR - for every non-CJK extension, on an empty base and on a CJK base
+	wsAlpha := []string{"a", "b", " ", "\t", "\n", "\r\n", "\r", "*", "漢"}
+	Lw := c.N(5, 6)
+	nw := wl.ShortCount(len(wsAlpha), Lw)
+	for i := 0; i < nw; i++ {
+		if !c.Mine(i) {
+			continue
+		}
+		d := []byte(wl.ShortAt(wsAlpha, Lw, i))
+		if !bytes.ContainsAny(d, "\r\n") {
+			continue
+		}
+		e := c11Exts[i%7]
+		x := e.strip(d)
+		if c11HasTrigger(e.name, x) {
+			continue
+		}
+		if bytes.IndexByte(x, 0xe6) >= 0 {
+			cj := []string{cfg.SCJKSimple, cfg.SCJKCSS3}[i/7%2]
+			c11Check(c, pool, e.name, cfg.Spec{Only: []string{cj}}, cfg.Spec{Only: []string{cj, e.name}}, x)
+		} else {
+			c11Check(c, pool, e.name, cfg.Spec{Only: []string{}}, cfg.Spec{Only: []string{e.name}}, x)
+		}
+		c.Count("line_ending_documents", 1)
+	}
 	n1b := c.PerShard(c.N(90000, 3000000))
 	for i := 0; i < n1b; i++ {
 		d := wl.SoupFrom(r, cjkTok, 2+r.Intn(12))
